@@ -308,3 +308,17 @@ Theorem combined_not_contacted_outside_any_member_coverage :
       ((forall b, to_srs T (q_srs q) cs' (q_bbox q) = Some b -> cov_intersects GI (w_geom e) cb b = false) ->
        forall r, wms_get_map T kn kd GI GC e q <> Request r).
 Proof. exact combined_not_contacted_outside_member_coverage. Qed.
+
+(* WMS 1.3.0 upstreams: the BBOX parameter, read in the axis order of the CRS (swapped back for north/east CRSs; ne =
+   is_axis_order_ne of the code), is the negotiated bbox - so all bbox statements above hold for what a 1.3.0 server
+   reads -, the code is sent as CRS, and no SRS parameter is left; for 1.1.1 upstreams the URL is url_params. *)
+Theorem url_wms130_bbox_in_axis_order_of_crs :
+  forall (ne : Z -> bool) (tmpl : params) (fixed : list (Z * Z)) (r : request),
+    ~ In K_BBOX (map fst fixed) -> ~ In K_SRS (map fst fixed) ->
+    let p := url_params_v true ne tmpl fixed r in
+    pget K_BBOX p = Some [VBox (if ne (s_code (r_srs r)) then swap_bbox (r_bbox r) else r_bbox r)] /\
+    pget K_CRS p = Some [VStr (s_code (r_srs r))] /\ pget K_SRS p = None.
+Proof. exact url_v130. Qed.
+
+Theorem swap_bbox_is_an_involution : forall b, swap_bbox (swap_bbox b) = b.
+Proof. exact swap_bbox_involutive. Qed.
